@@ -39,3 +39,22 @@ Theorem C05_paths_true : forall ps doc cp v,
   wf_val doc = true -> In (cp, v) (walk ps [] doc) -> index_along doc cp = Some v.
 Proof. exact C04_truthful. Qed.
 Print Assumptions C05_paths_true.
+
+(* ---- the textual report of one rule test (RuleTest.get_failures_string; assembly modelled in Report.v, repr() and the reason
+   lines are inputs): a test without failures says so; otherwise one text per failure, in the order of the failure list, each
+   naming its path and giving every reason *)
+From Valida Require Import Report.
+From Valida.Proofs Require Import ReportProof.
+
+Theorem C05_rule_report : forall r,
+  (rx_fails r = [] -> rule_report r = "Rule test is valid." ++ nl) /\
+  (rx_fails r <> [] -> rule_report r = cat (map failure_text (rx_fails r))) /\
+  (forall f, In f (rx_fails r) -> infix_of ("Path: " ++ ft_path f ++ nl) (rule_report r) /\
+                                 forall x, In x (ft_reasons f) -> infix_of (" " ++ x ++ nl) (rule_report r)).
+Proof.
+  intros r. split; [ exact (rule_report_valid r) | ]. split; [ exact (rule_report_failures r) | ].
+  intros f Hf. split.
+  - apply (infix_trans _ (failure_text f)); [ apply path_line_in_failure_text | apply failure_in_rule_report; exact Hf ].
+  - intros x Hx. apply (infix_trans _ (failure_text f)); [ apply reason_in_failure_text; exact Hx | apply failure_in_rule_report; exact Hf ].
+Qed.
+Print Assumptions C05_rule_report.
